@@ -138,7 +138,7 @@ def env_atoms(desc, host_atoms):
                          "chain": "W", "res_seq": wnum})
             wnum += 1
         elif kind == "water":
-            _k, tname, di, d = dev
+            _k, tname, di, d = dev[:4]
             t = _find(host_atoms, ti, tname)
             if t is None:
                 return None
@@ -154,9 +154,55 @@ def env_atoms(desc, host_atoms):
                 if build.dist(e["xyz"], xyz) < 2.4:
                     return None
             extra.append(w)
+            if len(dev) > 4:
+                # the water comes with both hydrogens: "away" turns its
+                # hydrogens away from the target (the lone pairs face it:
+                # an acceptor), "toward" points a hydrogen bisector at it;
+                # the last element spins the water about that axis
+                _k, tname, di, d, facing, spin = dev
+                wat = T.load()[0]["WAT"]
+                o = np.array(wat.atoms["O"].xyz)
+                h = [np.array(wat.atoms[n].xyz) - o for n in ("H1", "H2")]
+                bis = (h[0] + h[1]) / np.linalg.norm(h[0] + h[1])
+                if facing in ("lp+", "lp-"):
+                    # one lone-pair direction (tetrahedral complement of the
+                    # two O-H bonds) along +/- the approach direction
+                    nrm = np.cross(h[0], h[1])
+                    nrm = nrm / np.linalg.norm(nrm)
+                    ref = -bis * np.cos(np.radians(54.75)) \
+                        + nrm * np.sin(np.radians(54.75))
+                    axis = build.DIRECTIONS14[di] * (1.0 if facing == "lp+"
+                                                     else -1.0)
+                else:
+                    ref = bis
+                    axis = build.DIRECTIONS14[di] * (1.0 if facing == "away"
+                                                     else -1.0)
+                R = _spin(axis, spin) @ _align(ref, axis)
+                for hn, hv in zip(("H1", "H2"), h):
+                    extra.append(build.water(xyz + R @ hv, wnum, name=hn))
             info.append({"kind": "wat", "input": "HOH", "position": None,
                          "chain": "W", "res_seq": wnum})
             wnum += 1
+        elif kind == "waterpair":
+            # two waters far from the host, 2.8 A apart along a lattice
+            # direction; the first carries both hydrogens on two cube
+            # diagonals, so that its lone pairs lie on two others: the 14
+            # directions put the second water on a hydrogen (donor), on a
+            # lone pair (acceptor) and in between
+            _k, di, mode = dev
+            base = np.array([30.0, 30.0, 30.0])
+            hv = [np.array(v, float) / np.sqrt(3.0) * 0.9572
+                  for v in ((1, 1, 1), (1, -1, -1))]
+            for k, (pos_, with_h) in enumerate((
+                    (base, True),
+                    (base + 2.8 * build.DIRECTIONS14[di], mode == "ab"))):
+                extra.append(build.water(pos_, wnum))
+                if with_h:
+                    for hn, v in zip(("H1", "H2"), hv):
+                        extra.append(build.water(pos_ + v, wnum, name=hn))
+                info.append({"kind": "wat", "input": "HOH", "position": None,
+                             "chain": "W", "res_seq": wnum})
+                wnum += 1
         elif kind == "idealwater":
             # water oxygen on a tetrahedral slot of the host's polar atom
             _k, tname, phi, slot, d = dev
@@ -367,7 +413,33 @@ def build_case(desc):
                 a["name"] = alias[a["name"]]
             filed.append(a)
         return build.pdb_text(filed), info + einfo, atoms
+    if desc.get("h_order") == "parent":
+        atoms = _parent_order(atoms)
     return build.pdb_text(atoms), info + einfo, atoms
+
+
+def _parent_order(atoms):
+    """The same records with every hydrogen listed directly after the heavy
+    atom it is attached to (the order AMBER / GROMACS / CHARMM write)."""
+    out, i = [], 0
+    while i < len(atoms):
+        j = i
+        while j < len(atoms) and atoms[j]["res_idx"] == atoms[i]["res_idx"] \
+                and atoms[j]["chain"] == atoms[i]["chain"] \
+                and atoms[j]["res_seq"] == atoms[i]["res_seq"]:
+            j += 1
+        group = atoms[i:j]
+        heavy = [a for a in group if not a["name"].startswith("H")]
+        hyd = [a for a in group if a["name"].startswith("H")]
+        if heavy:
+            for a in heavy:
+                out.append(a)
+                out += [h for h in hyd if min(
+                    heavy, key=lambda q: build.dist(q["xyz"], h["xyz"])) is a]
+        else:
+            out += group
+        i = j
+    return out
 
 
 # ---------------------------------------------------------------------------
@@ -485,6 +557,61 @@ def water_cases(ff, dists=(2.8,), names=None, opt="default"):
                     for d in dists:
                         out.append({"x": x, "pos": pos, "ff": ff, "opt": opt,
                                     "env": [["water", t, di, d]]})
+    return out
+
+
+def water_with_h_cases(ff, names=None, opts=("default",)):
+    """Water probes that carry both hydrogens in the input, facing the
+    target with their lone pairs (acceptor) or with their hydrogens (donor),
+    in two spins about the approach axis."""
+    out = []
+    for x in (names or ["SER", "THR", "TYR", "LYS", "ARG", "HIS", "ASN",
+                        "ASP", "TRP", "ALA"]):
+        for pos in corpus.POSITIONS:
+            for t in polar_targets(x, pos):
+                for di in range(14):
+                    for facing in ("away", "toward", "lp-"):
+                        for spin in (0.0, 90.0):
+                            for opt in opts:
+                                out.append({"x": x, "pos": pos, "ff": ff,
+                                            "opt": opt,
+                                            "env": [["water", t, di, 2.8,
+                                                     facing, spin]]})
+    return out
+
+
+def water_pair_cases(ff, names=("ALA", "SER"), opts=("default", "noopt")):
+    """An isolated pair of waters, the first (or both) with hydrogens in the
+    input (see env kind "waterpair")."""
+    out = []
+    for x in names:
+        for di in range(14):
+            for mode in ("a", "ab"):
+                for opt in opts:
+                    out.append({"x": x, "pos": "mid", "ff": ff, "opt": opt,
+                                "env": [["waterpair", di, mode]]})
+    return out
+
+
+def water_chain_cases(ff, names=None, opts=("default",)):
+    """Two waters in a row beyond a polar atom (target..W1..W2, 2.8 A apart);
+    one of them carries both hydrogens in the input, turned toward or away
+    from the target: hydrogen-less waters donate to / accept from a water
+    whose hydrogens are given."""
+    out = []
+    for x in (names or ["SER", "LYS", "ASP", "HIS", "ASN", "ALA"]):
+        for pos in ("mid",):
+            for t in polar_targets(x, pos):
+                for di in range(14):
+                    for which in (0, 1):
+                        for facing in ("away", "toward", "lp+", "lp-"):
+                            for spin in (0.0, 90.0):
+                                env = [["water", t, di, 2.8],
+                                       ["water", t, di, 5.6]]
+                                env[which] = env[which] + [facing, spin]
+                                for opt in opts:
+                                    out.append({"x": x, "pos": pos, "ff": ff,
+                                                "opt": opt, "env": env})
     return out
 
 
@@ -887,6 +1014,36 @@ def omit_h_cases(ff, names=None, opts=("default",)):
                 for h in hydrogens_of(x, pos):
                     out.append({"x": x, "pos": pos, "ff": ff, "opt": opt,
                                 "hydrogens": True, "env": [["omit", [h]]]})
+    return out
+
+
+def keep_one_h_cases(ff, names=None, opts=("default",),
+                     orders=("template", "parent")):
+    """Input with hydrogens in which a group of sibling hydrogens (NH3+, CH3,
+    CH2, NH2) keeps exactly one member; records in template order and with
+    each hydrogen directly after its parent."""
+    out = []
+    for x in (names or ["ALA", "GLY", "LYS", "SER", "VAL", "MET", "ASN",
+                        "ARG", "PRO", "ILE"]):
+        for pos in corpus.POSITIONS:
+            hs = hydrogens_of(x, pos)
+            tmpl = T.expected_topology(x, pos)
+            groups = {}
+            for h in hs:
+                groups.setdefault(tmpl.atoms[h].bonds[0], []).append(h)
+            for parent, sibs in sorted(groups.items()):
+                if len(sibs) < 2:
+                    continue
+                for keep in sibs:
+                    for order in orders:
+                        for opt in opts:
+                            d = {"x": x, "pos": pos, "ff": ff, "opt": opt,
+                                 "hydrogens": True,
+                                 "env": [["omit", [h for h in sibs
+                                                   if h != keep]]]}
+                            if order != "template":
+                                d["h_order"] = order
+                            out.append(d)
     return out
 
 
